@@ -20,6 +20,19 @@ if TYPE_CHECKING:
 logger = logging.getLogger(__name__)
 
 
+def _take_down(entity) -> None:
+    """Open one crash/pause window on *entity*."""
+    entity._down_windows = getattr(entity, "_down_windows", 0) + 1  # type: ignore[attr-defined]
+    entity._crashed = True  # type: ignore[attr-defined]
+
+
+def _bring_up(entity) -> None:
+    """Close one crash/pause window; the entity runs again once none is open."""
+    remaining = max(0, getattr(entity, "_down_windows", 0) - 1)
+    entity._down_windows = remaining  # type: ignore[attr-defined]
+    entity._crashed = remaining > 0  # type: ignore[attr-defined]
+
+
 @dataclass(frozen=True)
 class CrashNode:
     """Crash a node at a specific time, optionally restart later.
@@ -44,7 +57,7 @@ class CrashNode:
         events: list[Event] = []
 
         def crash(e: Event) -> None:
-            entity._crashed = True  # type: ignore[attr-defined]
+            _take_down(entity)
             logger.info("[FaultInjection] Crashed '%s' at %s", entity_name, e.time)
 
         events.append(
@@ -59,7 +72,7 @@ class CrashNode:
         if self.restart_at is not None:
 
             def restart(e: Event) -> None:
-                entity._crashed = False  # type: ignore[attr-defined]
+                _bring_up(entity)
                 logger.info(
                     "[FaultInjection] Restarted '%s' at %s",
                     entity_name,
@@ -101,11 +114,11 @@ class PauseNode:
         events: list[Event] = []
 
         def pause(e: Event) -> None:
-            entity._crashed = True  # type: ignore[attr-defined]
+            _take_down(entity)
             logger.info("[FaultInjection] Paused '%s' at %s", entity_name, e.time)
 
         def resume(e: Event) -> None:
-            entity._crashed = False  # type: ignore[attr-defined]
+            _bring_up(entity)
             logger.info("[FaultInjection] Resumed '%s' at %s", entity_name, e.time)
 
         events.append(
